@@ -265,7 +265,9 @@ def SlashCodeOk : Prop :=
   oracleSetSlashArg = .oracleAddress ∧ batchSlashArg = .oracleAddress ∧ bridgeCallSlashArg = .oracleAddress ∧
   oracleSetStartSkip = .gt ∧ batchStartSkip = .gt ∧ bridgeCallStartSkip = .gt ∧
   slashWhenConfirmMissing = true ∧ oracleSetWindowCmp = .gt ∧ bridgeCallWindowCmp = .le ∧
-  batchRangeHalfOpen = true ∧ slashingGuardCmp = .le
+  batchRangeHalfOpen = true ∧ slashingGuardCmp = .le ∧
+  -- the model matches confirms with oracles by EXTERNAL address (`confExts`, `shouldSlash`): that is what the code must do
+  slashConfirmFill = .external ∧ slashConfirmLookup = .external
 
 instance : Decidable SlashCodeOk := by unfold SlashCodeOk; infer_instance
 
@@ -353,8 +355,22 @@ def PowerFits (s : State) : Prop := ((Store.vals s.oracles).map (power s.p)).sum
 
 instance (s : State) : Decidable (PowerFits s) := by unfold PowerFits; infer_instance
 
-theorem currentMembers_ok (s : State) (hf : PowerFits s) : ∃ cur, currentMembers s = .ok cur := by
+/-- … in fact only the ONLINE oracles are summed -/
+def OnlinePowerFits (s : State) : Prop := ((onlineOracles s).map (power s.p)).sum < u64
+
+instance (s : State) : Decidable (OnlinePowerFits s) := by unfold OnlinePowerFits; infer_instance
+
+theorem PowerFits.online {s : State} (hf : PowerFits s) : OnlinePowerFits s := by
+  have h3 := sum_filter_le (power s.p) (fun o => o.online) (Store.vals s.oracles)
+  unfold PowerFits at hf
+  unfold OnlinePowerFits onlineOracles
+  omega
+
+theorem currentMembers_ok_online (hskip : currentSetSkip = .nonPositive) (s : State) (hf : OnlinePowerFits s) :
+    ∃ cur, currentMembers s = .ok cur := by
   unfold currentMembers
+  have hkept : keptMember = fun m => decide (m.2 > 0) := by funext m; simp [keptMember, hskip]
+  rw [hkept]
   generalize hps : (((onlineOracles s).map (fun o => (o.ext, power s.p o))).filter (fun m => m.2 > 0)) = ps
   have hsum : (ps.map (·.2)).sum < u64 := by
     rw [← hps]
@@ -362,9 +378,7 @@ theorem currentMembers_ok (s : State) (hf : PowerFits s) : ∃ cur, currentMembe
     have h2 : (((onlineOracles s).map (fun o => (o.ext, power s.p o))).map (fun m : Nat × Nat => m.2)).sum
         = ((onlineOracles s).map (power s.p)).sum := by
       simp [List.map_map, Function.comp_def]
-    have h3 := sum_filter_le (power s.p) (fun o => o.online) (Store.vals s.oracles)
-    unfold PowerFits at hf
-    unfold onlineOracles at h1 h2 ⊢
+    unfold OnlinePowerFits at hf
     omega
   have hany : ps.any (fun m => decide (m.2 ≥ u64)) = false := by
     rw [List.any_eq_false]
@@ -386,6 +400,10 @@ theorem currentMembers_ok (s : State) (hf : PowerFits s) : ∃ cur, currentMembe
     have hnz : ((ps.map (·.2)).sum % u64 == 0) = false := by
       rw [hmod]; simp; omega
     simp [hnz]
+
+theorem currentMembers_ok (hskip : currentSetSkip = .nonPositive) (s : State) (hf : PowerFits s) :
+    ∃ cur, currentMembers s = .ok cur :=
+  currentMembers_ok_online hskip s hf.online
 
 /-! ## the whole crosschain end-blocker -/
 
@@ -456,19 +474,103 @@ theorem createOracleSetRequest_frame (s : State) (h : Nat) (s' : State) (he : cr
   | ok cur =>
     rw [hcur] at he
     simp only at he
-    by_cases hc : (needOracleSet s h cur && !cur.isEmpty) = true
-    · rw [if_pos hc] at he; injection he with he; subst he; exact ⟨by constructor <;> rfl, rfl⟩
-    · rw [if_neg hc] at he; injection he with he; subst he; exact ⟨OuterCore.refl s, rfl⟩
+    cases hneed : needOracleSet s h cur with
+    | error e => rw [hneed] at he; simp at he
+    | ok need =>
+      rw [hneed] at he
+      simp only at he
+      by_cases hc : (need && !cur.isEmpty) = true
+      · rw [if_pos hc] at he; injection he with he; subst he; exact ⟨by constructor <;> rfl, rfl⟩
+      · rw [if_neg hc] at he; injection he with he; subst he; exact ⟨OuterCore.refl s, rfl⟩
 
-theorem createOracleSetRequest_total (s : State) (h : Nat) (hf : PowerFits s) :
+/-- what the refresh decision needs from the code (regenerated): the nil test of the latest oracle set comes before the
+power-difference step (which dereferences it), and the float is rendered with a FIXED number of decimals that
+`LegacyNewDecFromStr` accepts (≤ 18) -/
+def RefreshCodeOk : Prop :=
+  currentSetSkip = .nonPositive ∧
+  needChecks = [.latestNil, .slashThisBlock, .powerDiff] ∧
+  (match powerDiffFormat with | .fixed n => decide (n ≤ decPrecision) | _ => false) = true
+
+instance : Decidable RefreshCodeOk := by unfold RefreshCodeOk; infer_instance
+
+/-- with a fixed format of at most 18 decimals every power difference parses -/
+theorem powerDiffParsed_isSome (hr : RefreshCodeOk) (delta : Nat) : ∃ v, powerDiffParsed delta = some v := by
+  obtain ⟨_, _, hf⟩ := hr
+  unfold powerDiffParsed
+  cases hfmt : powerDiffFormat with
+  | fixed n =>
+    rw [hfmt] at hf
+    have hn : n ≤ decPrecision := by simpa using hf
+    simp only [hn, if_true]
+    exact ⟨_, rfl⟩
+  | shortest => rw [hfmt] at hf; simp at hf
+  | other => rw [hfmt] at hf; simp at hf
+
+/-- the refresh decision never panics -/
+theorem needOracleSet_total (hr : RefreshCodeOk) (s : State) (h : Nat) (cur : List (Nat × Nat)) :
+    ∃ b, needOracleSet s h cur = .ok b := by
+  unfold needOracleSet
+  rw [hr.2.1]
+  simp only [needGo]
+  cases hl : latestSet s with
+  | none => exact ⟨true, rfl⟩
+  | some latest =>
+    simp only
+    split
+    · exact ⟨true, rfl⟩
+    · obtain ⟨v, hv⟩ := powerDiffParsed_isSome hr (powerDelta cur latest.members)
+      rw [hv]
+      simp only
+      split
+      · exact ⟨true, rfl⟩
+      · exact ⟨false, rfl⟩
+
+theorem createOracleSetRequest_total_online (hr : RefreshCodeOk) (s : State) (h : Nat) (hf : OnlinePowerFits s) :
     ∃ s', createOracleSetRequest s h = .ok s' := by
-  obtain ⟨cur, hcur⟩ := currentMembers_ok s hf
+  obtain ⟨cur, hcur⟩ := currentMembers_ok_online hr.1 s hf
+  obtain ⟨need, hneed⟩ := needOracleSet_total hr s h cur
   unfold createOracleSetRequest
   rw [hcur]
-  simp only
-  by_cases hc : (needOracleSet s h cur && !cur.isEmpty) = true
+  simp only [hneed]
+  by_cases hc : (need && !cur.isEmpty) = true
   · rw [if_pos hc]; exact ⟨_, rfl⟩
   · rw [if_neg hc]; exact ⟨_, rfl⟩
+
+theorem createOracleSetRequest_total (hr : RefreshCodeOk) (s : State) (h : Nat) (hf : PowerFits s) :
+    ∃ s', createOracleSetRequest s h = .ok s' := createOracleSetRequest_total_online hr s h hf.online
+
+theorem sum_map_le {α : Type} (f g : α → Nat) (l : List α) (h : ∀ x ∈ l, f x ≤ g x) : (l.map f).sum ≤ (l.map g).sum := by
+  induction l with
+  | nil => simp
+  | cons a t ih =>
+    have h1 := h a (by simp)
+    have h2 := ih (fun x hx => h x (by simp [hx]))
+    simp only [List.map_cons, List.sum_cons]; omega
+
+theorem sum_filter_eq {α : Type} (f : α → Nat) (p : α → Bool) (l : List α) :
+    ((l.filter p).map f).sum = (l.map (fun x => if p x then f x else 0)).sum := by
+  induction l with
+  | nil => simp
+  | cons a t ih =>
+    by_cases hp : p a = true
+    · simp only [List.filter_cons, hp, if_true, List.map_cons, List.sum_cons, ih]
+    · simp only [List.filter_cons, hp, List.map_cons, List.sum_cons]; simp; exact ih
+
+/-- slashing only takes oracles offline, so the online power does not grow -/
+theorem onlineFits_of_recs (s0 t : State) (h : Nat) (hp : t.p = s0.p)
+    (hg : ∃ g : Oracle → Oracle, t.oracles = Store.mapVals g s0.oracles ∧ ∀ o, RecRel s0 h o (g o))
+    (hf : OnlinePowerFits s0) : OnlinePowerFits t := by
+  obtain ⟨g, hg, hrel⟩ := hg
+  unfold OnlinePowerFits onlineOracles at hf ⊢
+  rw [hg, vals_mapVals, hp, sum_filter_eq, List.map_map]
+  rw [sum_filter_eq] at hf
+  refine Nat.lt_of_le_of_lt (sum_map_le _ _ _ ?_) hf
+  intro o _
+  obtain ⟨_, _, _, hamt, _, _, hor⟩ := hrel o
+  simp only [Function.comp]
+  rcases hor with e | ⟨h1, h2, _⟩
+  · rw [e]; exact Nat.le_refl _
+  · simp [h2]
 
 theorem prune_frame (s : State) (h : Nat) : OuterCore s (pruneOracleSet s h) ∧ (pruneOracleSet s h).oracles = s.oracles := by
   unfold pruneOracleSet
@@ -499,11 +601,14 @@ theorem endBlock_rel (hcode : SlashCodeOk) (s : State) (h : Nat) (s' : State) (h
     exact ⟨g, by rw [o3, o2, hg], hrel⟩
 
 /-- the crosschain end-blocker is total, given the code facts and the `uint64` range -/
-theorem endBlock_total (hcode : SlashCodeOk) (s : State) (h : Nat) (hf : PowerFits s) :
+theorem endBlock_total_online (hcode : SlashCodeOk) (hr : RefreshCodeOk) (s : State) (h : Nat) (hf : OnlinePowerFits s) :
     ∃ s', endBlock s h = .ok s' := by
   obtain ⟨s1, e1, r1⟩ := slashing_rel hcode s h
-  have hf1 : PowerFits s1 := powerFits_of_recs s s1 h r1.core.p r1.recs hf
-  obtain ⟨s2, e2⟩ := createOracleSetRequest_total s1 h hf1
+  have hf1 : OnlinePowerFits s1 := onlineFits_of_recs s s1 h r1.core.p r1.recs hf
+  obtain ⟨s2, e2⟩ := createOracleSetRequest_total_online hr s1 h hf1
   exact ⟨pruneOracleSet s2 h, by unfold endBlock; rw [e1]; simp only [e2]⟩
+
+theorem endBlock_total (hcode : SlashCodeOk) (hr : RefreshCodeOk) (s : State) (h : Nat) (hf : PowerFits s) :
+    ∃ s', endBlock s h = .ok s' := endBlock_total_online hcode hr s h hf.online
 
 end FxVerif.Proofs.C13
